@@ -303,13 +303,15 @@ distinct, declared once and initialised once with their use's bank; headers and 
 the union of what the used collections need, once each in order of first use.
 Hypotheses (all decidable, all used as generator filters):
  * `WellTyped`  — values have the documented Python types (modelling domain);
- * `KindDefault`, `CmsIsCollection`, `TypeClean` — defect exclusions (three listed findings,
-   counterexample theorems above and below);
+ * `KindDefault`, `CmsIsCollection` (asked of this backend's declarations only), `TypeClean` — defect
+   exclusions (three listed findings, counterexample theorems above and below);
  * `NameClean`  — no collection name ends in a digit (`unique_name` is `name ++ index`, which is
    only injective for such names; C02 owns that finding).
 Full statement: the same without the last four hypotheses. -/
 theorem run_spec_partial (b : Backend) (mds : List Md) (uses : List Use) (c0 gap : Nat) (ks : List Consumer)
-    (hwt : ∀ md ∈ mds, md.WellTyped) (hkind : ∀ md ∈ mds, KindDefault b md) (hcms : ∀ md ∈ mds, CmsIsCollection b md)
+    (hwt : ∀ md ∈ mds, md.WellTyped)
+    (hkind : ∀ md ∈ mds, md.mdType = b.mdType → KindDefault b md)
+    (hcms : ∀ md ∈ mds, md.mdType = b.mdType → CmsIsCollection b md)
     (hclean : ∀ p ∈ resolveAll b mds uses, TypeClean p.1) (hnames : ∀ u ∈ uses, NameClean u.name) :
     RunSpec b mds uses (outcomeOf (runJob b mds uses c0 gap) ks) :=
   runJob_spec b mds uses c0 gap ks hwt hkind hcms hclean hnames
@@ -319,8 +321,9 @@ miniAOD job (under the hypotheses above) the tokens of the retrieval blocks are 
 distinct, and the class declares / the constructor initialises exactly one line per use: the
 use's token with the container's token type / with `consumes<C>(edm::InputTag("bank"))`. -/
 theorem miniaod_tokens_distinct (mds : List Md) (uses : List Use) (c0 gap : Nat) (ks : List Consumer) (out : JobOut)
-    (hwt : ∀ md ∈ mds, md.WellTyped) (hkind : ∀ md ∈ mds, KindDefault .cmsMiniaod md)
-    (hcms : ∀ md ∈ mds, CmsIsCollection .cmsMiniaod md)
+    (hwt : ∀ md ∈ mds, md.WellTyped)
+    (hkind : ∀ md ∈ mds, md.mdType = Backend.mdType .cmsMiniaod → KindDefault .cmsMiniaod md)
+    (hcms : ∀ md ∈ mds, md.mdType = Backend.mdType .cmsMiniaod → CmsIsCollection .cmsMiniaod md)
     (hclean : ∀ p ∈ resolveAll .cmsMiniaod mds uses, TypeClean p.1) (hnames : ∀ u ∈ uses, NameClean u.name)
     (h : runJob .cmsMiniaod mds uses c0 gap = .ok out) :
     TokenSpec .cmsMiniaod (resolveAll .cmsMiniaod mds uses) (out.observe ks) ∧ (out.frags.map (·.tok)).Nodup := by
